@@ -8,6 +8,7 @@ APPENDS = {
     "rustzx-core/src/emulator/mod.rs": ["kani/core/append_emulator.rs"],
     "rustzx-core/src/zx/sound/mixer.rs": ["kani/core/append_mixer.rs"],
     "rustzx-core/src/zx/video/screen.rs": ["kani/core/append_screen.rs"],
+    "rustzx-core/src/zx/tape/tap.rs": ["replay/tape_native.rs"],
 }
 
 NEW_FILES = {
